@@ -10,6 +10,8 @@ import PygProofs.Lemmas.USetLemmas
 import PygProofs.Lemmas.DictCallLemmas
 import PygProofs.Lemmas.DictCallOrder
 import PygProofs.Lemmas.DAHeapLemmas
+import PygModel.DictAdd
+import PygProofs.Lemmas.TreeMerge
 
 namespace Pyg.Props.C16
 open Pyg Pyg.USet Pyg.DA Pyg.DictCall
@@ -37,7 +39,8 @@ private theorem getD_nodup (heap : List (List α)) (inv : ∀ u ∈ heap, u.Nodu
   | some u => exact inv u (List.mem_of_getElem? e)
 
 /-- invariant over ANY history of operations (including the trusted `unique=True` fast path used by
-`copy`, `u + x` for a present `x` and `u & x`): no handle ever holds a duplicate -/
+`copy`, `u + x` for a present `x` and `u & x`, and the inherited IN-PLACE list operations `append extend += insert
+u[i] = x *=`): no handle ever holds a duplicate -/
 theorem ulist_nodup (ops : List (Op α)) : ∀ u ∈ run ops, u.Nodup := by
   suffices h : ∀ (ops : List (Op α)) (heap : List (List α)), (∀ u ∈ heap, u.Nodup) →
       ∀ u ∈ ops.foldl step heap, u.Nodup from h ops [] (by simp)
@@ -49,8 +52,33 @@ theorem ulist_nodup (ops : List (Op α)) : ∀ u ∈ run ops, u.Nodup := by
     simp only [List.foldl_cons]
     apply ih
     have g := getD_nodup heap inv
+    have hin : ∀ (h : Nat) (op : Op α), ∀ u ∈ stepIn heap h op, u.Nodup := by
+      intro h op u hu
+      unfold stepIn at hu
+      cases hh : heap[h]? with
+      | none => simp only [hh] at hu; exact inv u hu
+      | some w =>
+        simp only [hh] at hu
+        cases hi : inplace w op with
+        | none => simp only [hi] at hu; exact inv u hu
+        | some w' =>
+          simp only [hi] at hu
+          rcases List.mem_or_eq_of_mem_set hu with hu | rfl
+          · exact inv u hu
+          · cases op <;> simp only [inplace, Option.some.injEq, reduceCtorEq] at hi <;>
+              first
+                | (subst hi; exact mk_nodup _)
+                | (split at hi <;> first | (cases hi; exact mk_nodup _) | cases hi)
     intro u hu
-    cases op <;> simp only [step, List.mem_append, List.mem_singleton] at hu <;>
+    cases op
+    case append h x => exact hin h (.append h x) u hu
+    case extend h xs => exact hin h (.extend h xs) u hu
+    case iadd h xs => exact hin h (.iadd h xs) u hu
+    case insert h i x => exact hin h (.insert h i x) u hu
+    case setI h i x => exact hin h (.setI h i x) u hu
+    case imul h n => exact hin h (.imul h n) u hu
+    all_goals
+      simp only [step, List.mem_append, List.mem_singleton] at hu
       rcases hu with hu | rfl <;> first
         | exact inv u hu
         | exact mk_nodup _
@@ -59,11 +87,44 @@ theorem ulist_nodup (ops : List (Op α)) : ∀ u ∈ run ops, u.Nodup := by
         | (unfold andElem; split <;> first | (simp [mkTrusted]) | exact mk_nodup _)
         | (unfold subElem; split <;> first | exact g _ | exact mk_nodup _)
 
-/-- earlier handles are never changed by a later operation (the model has no mutation; this is the
-frame property the harness re-checks on the real objects after every operation) -/
-theorem ulist_frame (heap : List (List α)) (op : Op α) (i : Nat) (hi : i < heap.length) :
-    (step heap op)[i]? = heap[i]? := by
-  cases op <;> simp [step, List.getElem?_append_left hi]
+/-- what the in-place operations leave in their target: the plain list operation followed by the constructor's
+first-occurrence rule — `u.append(x)` / `u += xs` / `u.extend(xs)` are the ordered union (as `u + x`), `u *= n` keeps `u`
+(`n ≥ 1`) or empties it -/
+theorem ulist_inplace (u xs : List α) (x : α) (n : Nat) (hu : u.Nodup) :
+    inplace u (.append 0 x) = some (addList u [x]) ∧ inplace u (.extend 0 xs) = some (addList u xs) ∧
+    inplace u (.iadd 0 xs) = some (addList u xs) ∧ inplace u (.imul 0 (n + 1)) = some u ∧
+    inplace u (.imul 0 0) = some [] := by
+  refine ⟨rfl, rfl, rfl, ?_, rfl⟩
+  simp only [inplace, Option.some.injEq]
+  induction n with
+  | zero => simp [repeatN, mk_of_nodup u hu]
+  | succ n ih =>
+    have : repeatN u (n + 1 + 1) = u ++ repeatN u (n + 1) := rfl
+    rw [this, mk_append, ih, mk_of_nodup u hu]
+    simp
+
+/-- earlier handles are never changed by a later operation, except the target of an in-place operation (the frame
+property the harness re-checks on the real objects after every operation) -/
+theorem ulist_frame (heap : List (List α)) (op : Op α) (i : Nat) (hi : i < heap.length)
+    (ht : op.target ≠ some i) : (step heap op)[i]? = heap[i]? := by
+  have hin : ∀ (h : Nat) (op : Op α), h ≠ i → (stepIn heap h op)[i]? = heap[i]? := by
+    intro h op hne
+    unfold stepIn
+    cases heap[h]? with
+    | none => rfl
+    | some w =>
+      dsimp only
+      cases inplace w op with
+      | none => rfl
+      | some w' => exact List.getElem?_set_ne hne
+  cases op
+  case append h x => exact hin h (.append h x) (fun e => ht (by simp [Op.target, e]))
+  case extend h xs => exact hin h (.extend h xs) (fun e => ht (by simp [Op.target, e]))
+  case iadd h xs => exact hin h (.iadd h xs) (fun e => ht (by simp [Op.target, e]))
+  case insert h j x => exact hin h (.insert h j x) (fun e => ht (by simp [Op.target, e]))
+  case setI h j x => exact hin h (.setI h j x) (fun e => ht (by simp [Op.target, e]))
+  case imul h n => exact hin h (.imul h n) (fun e => ht (by simp [Op.target, e]))
+  all_goals simp [step, List.getElem?_append_left hi]
 
 /-- `u + xs` / `u | xs` is the ordered union -/
 theorem ulist_union (u xs : List α) (hu : u.Nodup) :
@@ -311,7 +372,153 @@ theorem relabel_keys (d : D V) (m : List (String × String))
   apply setAll_nil_of_nodup
   simpa [keys, List.map_map, Function.comp_def] using hn
 
+/-- `(d - ks).keys() == d.keys() - ks`, composed: the key list of the difference is the ulist difference of the key list -/
+theorem sub_keys_ulist (d : D V) (ks : List String) (hd : (keys d).Nodup) :
+    keys (subKeys d ks) = USet.subList (keys d) ks := by
+  rw [(sub_keys d ks).1, ulist_diff _ _ hd]
+
+/-- likewise `(d & ks).keys() == d.keys() & ks` -/
+theorem and_keys_ulist (d : D V) (ks : List String) (hd : (keys d).Nodup) :
+    keys (andKeys d ks) = USet.andList (keys d) ks := by
+  rw [(and_keys d ks hd).1, ulist_inter _ _ hd]
+
+/-- `d + other` for a receiver that is not a `Dict` (dictattr proper and its other subclasses) is `{**d, **other}` for
+ALL value types — also dict values are simply replaced -/
+theorem add_class (d : D V) [TreeAdd V] (o : List (String × V)) (hc : d.cls ≠ 1) : addC d o = .ok (add d o) := by
+  simp [addC, hc, pure, Except.pure]
+
 end dictattr
+
+section dictadd
+open Pyg.Tree
+
+private theorem itemsKVs_flat : ∀ (o : List (String × Val)), (∀ kv ∈ o, ∀ s, kv.2 ≠ .dict s) →
+    itemsKVs o = o.map fun kv => ([kv.1], kv.2)
+  | [], _ => rfl
+  | (k, v) :: o, h => by
+      have hv : ∀ s, v ≠ .dict s := h (k, v) (by simp)
+      simp only [itemsKVs, items_leaf v hv, List.map_cons, List.map_nil, List.singleton_append]
+      rw [itemsKVs_flat o fun kv hm => h kv (by simp [hm])]
+
+private theorem foldl_setKVs_keys_nodup (ig : List Val) : ∀ (its : List (Path × Val)) (a : List (String × Val)),
+    (a.map (·.1)).Nodup → ((its.foldl (fun acc pv => setKVs acc pv.1 pv.2 ig) a).map (·.1)).Nodup
+  | [], a, h => h
+  | pv :: its, a, h => by
+      simp only [List.foldl_cons]
+      apply foldl_setKVs_keys_nodup ig its
+      obtain ⟨p, v⟩ := pv
+      cases p with
+      | nil => simpa [setKVs] using h
+      | cons k rest =>
+        cases rest with
+        | nil =>
+          simp only [setKVs]
+          split
+          · exact h
+          · exact set_keys_nodup k v a h
+        | cons k2 r2 => simp only [setKVs]; exact set_keys_nodup k _ a h
+
+private theorem wfKVs_lookup : ∀ (o : List (String × Val)), wfKVs o = true → ∀ k v, lookup k o = some v → wf v = true
+  | [], _, _, _, h => by simp [lookup] at h
+  | (l, w) :: o, hw, k, v, h => by
+      simp only [wfKVs, Bool.and_eq_true] at hw
+      simp only [lookup] at h
+      split at h
+      · cases h; exact hw.1
+      · exact wfKVs_lookup o hw.2 k v h
+
+/-- `Dict.__add__` keeps the keys of its result distinct (what the heap invariant `da_keys_nodup` needs) -/
+instance : LawfulTreeAdd Val where
+  keys_nodup a b r ha h := by
+    simp only [TreeAdd.treeAdd, itemsToTree] at h
+    split at h
+    · cases h
+    · split at h
+      · cases h
+      · cases h; exact foldl_setKVs_keys_nodup [] _ a ha
+
+/-- THE C16 LAW FOR `Dict`: when no value of `other` is a dict (`other` a python dict: distinct keys), `Dict + other`
+is `{**d, **other}` like for every other class — whatever `d` holds (a dict value of `d` is then replaced as a whole). -/
+theorem dict_add_flat (d : D Val) (o : List (String × Val)) (ho : ∀ kv ∈ o, ∀ s, kv.2 ≠ .dict s)
+    (hn : (o.map (·.1)).Nodup) : addC d o = .ok (add d o) := by
+  by_cases hc : d.cls = 1
+  · have hp : ((o.map fun kv => (([kv.1] : Path), kv.2)).map (·.1)).Nodup := by
+      rw [List.map_map]
+      have : ((fun x : Path × Val => x.1) ∘ fun kv : String × Val => ([kv.1], kv.2)) = fun kv => [kv.1] := rfl
+      rw [this]
+      have h := List.Pairwise.map (S := fun (a b : Path) => a ≠ b) (fun k : String => [k])
+        (fun a b (e : a ≠ b) h => e (by simpa using h)) hn
+      simpa [List.Nodup, List.map_map, Function.comp_def] using h
+    have he : (o.map fun kv => (([kv.1] : Path), kv.2)).any (·.1.isEmpty) = false := by
+      rw [List.any_eq_false]; intro x hx
+      obtain ⟨kv, _, rfl⟩ := List.mem_map.1 hx
+      simp
+    simp only [addC, hc, if_true, TreeAdd.treeAdd, itemsToTree, items, itemsKVs_flat o ho, hp, not_true_eq_false,
+      if_false, he, Bool.false_eq_true, foldl_setKVs_flat, pure, Except.pure, Except.map, add]
+  · exact add_class d o hc
+
+/-- ... and with dict values `Dict + other` is C15's recursive merge (`other` with distinct keys and no empty branch at
+any depth): `Tree.mergeKVs`, characterised key by key by `C15.merge_lookup` / `mergeAt_leaf` / `mergeAt_branch` — a dict
+under the same key on both sides is merged, not replaced, so `d + o == {**d, **o}` does NOT hold there (see the examples
+below); the property text of C15 governs this case. -/
+theorem dict_add_is_merge (d : D Val) (o : List (String × Val)) (hc : d.cls = 1)
+    (hw : wf (.dict o) = true) (hn : noEmpty (.dict o) = true) :
+    addC d o = .ok ⟨1, mergeKVs [] d.items o⟩ := by
+  simp only [addC, hc, if_true, TreeAdd.treeAdd, itemsToTree_items [] d.items o hw hn, Except.map]
+
+/-- key by key: `Dict + other` differs from `{**d, **other}` only under keys that hold a dict on BOTH sides (there the
+dicts are merged) — a leaf of `other`, or a dict of `other` over a leaf / a missing key of `d`, is taken as it is -/
+theorem dict_add_lookup (d : D Val) (o : List (String × Val)) (hc : d.cls = 1)
+    (hw : wf (.dict o) = true) (hn : noEmpty (.dict o) = true) (k : String) :
+    ∃ r, addC d o = .ok r ∧ r.cls = 1 ∧
+      lookup k r.items = match lookup k o, lookup k d.items with
+        | some (.dict b), some (.dict a) => some (.dict (mergeKVs [] a b))
+        | some v, _ => some v
+        | none, x => x := by
+  refine ⟨_, dict_add_is_merge d o hc hw hn, rfl, ?_⟩
+  have hnd : (o.map (·.1)).Nodup := by
+    simp only [wf, Bool.and_eq_true, decide_eq_true_eq] at hw; exact hw.1
+  have hwk : wfKVs o = true := by
+    simp only [wf, Bool.and_eq_true, decide_eq_true_eq] at hw; exact hw.2
+  -- the merge, key by key (the C15 lemma `merge_lookup`, restated here because it lives in Props/C15)
+  have ml : ∀ (b a : List (String × Val)), (b.map (·.1)).Nodup →
+      lookup k (mergeKVs [] a b) = match lookup k b with
+        | some v => some (mergeAt [] k a v)
+        | none => lookup k a := by
+    intro b
+    induction b with
+    | nil => intro a _; simp [mergeKVs, lookup]
+    | cons kv b ih =>
+      intro a hn
+      obtain ⟨k', v⟩ := kv
+      simp only [List.map_cons, List.nodup_cons] at hn
+      rw [mergeKVs_cons, ih _ hn.2]
+      by_cases e : k = k'
+      · subst e
+        simp [lookup, lookup_eq_none k b hn.1, lookup_set]
+      · simp only [lookup, if_neg e]
+        cases lookup k b with
+        | none => simp [lookup_set, e]
+        | some w => simp [mergeAt, lookup_set, e]
+  rw [ml o d.items hnd]
+  cases hl : lookup k o with
+  | none => rfl
+  | some v =>
+    have hvw : wf v = true := wfKVs_lookup o hwk k v hl
+    simp only [mergeAt]
+    cases hd : lookup k d.items with
+    | none => simp [mergeNew_self [] v hvw]
+    | some old =>
+      cases v with
+      | dict b =>
+        cases old with
+        | dict a => simp [merge]
+        | _ =>
+          have hb : (b.map (·.1)).Nodup ∧ wfKVs b = true := by simpa [wf] using hvw
+          simp only [merge]; rw [mergeKVs_fresh [] b hb.2 [] (by simpa using hb.1)]; simp
+      | _ => cases old <;> simp [merge]
+
+end dictadd
 
 section dictcall
 open Pyg.DictCall
@@ -463,7 +670,7 @@ end dictcall
 
 section daheap
 open Pyg.DAHeap
-variable {V : Type}
+variable {V : Type} [TreeAdd V]
 
 /-- FRAME.  No operation changes an existing handle other than the target of an in-place operation
 (`d[k] = v`, `d.k = v`, `del d[k]`, `del d.k`): every operator (`copy - & + [[..]] relabel`) and
@@ -504,19 +711,23 @@ theorem da_alloc (heap : Heap V) (op : DAHeap.Op V) :
       simp only [List.getElem?_set_self hlt, hd, Option.map_some, hc]
     · exact ⟨Or.inl rfl, fun t ht => by simp [hn] at ht⟩
 
-/-- ATTRIBUTE ACCESS MIRRORS ITEM ACCESS: `d.k` is `d[k]`, `d.k = v` is `d[k] = v`, `del d.k` is
-`del d[k]` — same result, same effect on the heap — except that a missing key is reported as
+/-- ATTRIBUTE ACCESS MIRRORS ITEM ACCESS: `d.k = v` is `d[k] = v`, `del d.k` is `del d[k]`, and — for a name `k` that is
+not an attribute of the object's class (`shadowed`, the real hypothesis: python looks a name up on the class before it
+asks `__getattr__`; names with a leading underscore are private instance attributes and never items) — `d.k` is `d[k]`: same result, same effect on the heap, except that a missing key is reported as
 `AttributeError` instead of `KeyError` (`asAttr`). -/
-theorem da_attr_mirrors_item (heap : Heap V) (h : Nat) (k : String) (v : V) :
+theorem da_attr_mirrors_item (heap : Heap V) (h : Nat) (k : String) (v : V)
+    (hk : ∀ d, heap[h]? = some d → shadowed d.cls k = false) (hp : k.startsWith "_" = false) :
     DAHeap.step heap (.getAttr h k) = asAttr (DAHeap.step heap (.getItem h k)) ∧
     DAHeap.step heap (.setAttr h k v) = DAHeap.step heap (.setItem h k v) ∧
     DAHeap.step heap (.delAttr h k) = asAttr (DAHeap.step heap (.delItem h k)) := by
-  refine ⟨?_, rfl, ?_⟩
+  refine ⟨?_, by simp [DAHeap.step, hp], ?_⟩
   · simp only [DAHeap.step, bind, Except.bind, pure, Except.pure, deref]
-    cases heap[h]? with
+    cases hh : heap[h]? with
     | none => rfl
     | some d =>
       dsimp only
+      rw [hk d hh]
+      simp only [Bool.false_eq_true, if_false]
       cases getKey d k with
       | error e => cases e <;> rfl
       | ok v => rfl
@@ -528,6 +739,14 @@ theorem da_attr_mirrors_item (heap : Heap V) (h : Nat) (k : String) (v : V) :
       cases delKey d k with
       | error e => cases e <;> rfl
       | ok v => rfl
+
+/-- ... and the hypothesis is needed (known finding K1 of C16): for a key that is also the name of a method of the class,
+attribute access returns the bound method whatever the mapping holds, so `d.keys` differs from `d['keys']`, while
+`d.keys = v` still writes the item -/
+theorem da_attr_shadowed (heap : Heap V) (h : Nat) (k : String) (d : D V) (hd : heap[h]? = some d)
+    (hk : shadowed d.cls k = true) :
+    DAHeap.step heap (.getAttr h k) = .ok (heap, .method) := by
+  simp [DAHeap.step, bind, Except.bind, pure, Except.pure, deref, hd, hk]
 
 /-- item assignment and deletion write exactly one key of exactly one object -/
 theorem da_setitem (heap : Heap V) (h : Nat) (k : String) (v : V) (d : D V) (hd : heap[h]? = some d) :
@@ -561,7 +780,7 @@ theorem da_delitem (heap : Heap V) (h : Nat) (k : String) (d : D V) (hd : heap[h
         List.getElem?_set_self hlt]
 
 /-- invariant over ANY history: the keys of every object are distinct -/
-theorem da_keys_nodup (ops : List (DAHeap.Op V)) : ∀ d ∈ DAHeap.run ops, (keys d).Nodup := by
+theorem da_keys_nodup [LawfulTreeAdd V] (ops : List (DAHeap.Op V)) : ∀ d ∈ DAHeap.run ops, (keys d).Nodup := by
   suffices h : ∀ (ops : List (DAHeap.Op V)) (heap : Heap V), (∀ d ∈ heap, (keys d).Nodup) →
       ∀ d ∈ ops.foldl exec heap, (keys d).Nodup from h ops [] (by simp)
   intro ops
@@ -625,9 +844,22 @@ example : Missing exD [("x", sumFn ["a", "zz"] 0)] :=
 example : call exD [] [("y", sumFn ["x"] 0), ("x", sumFn ["a", "zz"] 0)] = .error .type := rfl
 
 /-- a dictattr history: operators allocate, in-place writes hit their target only -/
-example : DAHeap.run [.new 2 [("a", (1 : Int)), ("b", 2)], .copy 0, .setAttr 1 "c" 3, .subK 0 "a", .delItem 1 "a",
+private def vi (n : Int) : Val := .cell (.int n)
+example : DAHeap.run [.new 2 [("a", vi 1), ("b", vi 2)], .copy 0, .setItem 1 "c" (vi 3), .subK 0 "a", .delItem 1 "a",
       .delAttr 0 "zz", .addH 2 1] =
-    [⟨2, [("a", 1), ("b", 2)]⟩, ⟨2, [("b", 2), ("c", 3)]⟩, ⟨2, [("b", 2)]⟩, ⟨2, [("b", 2), ("c", 3)]⟩] := rfl
+    [⟨2, [("a", vi 1), ("b", vi 2)]⟩, ⟨2, [("b", vi 2), ("c", vi 3)]⟩, ⟨2, [("b", vi 2)]⟩,
+     ⟨2, [("b", vi 2), ("c", vi 3)]⟩] := rfl
 example : (DAHeap.Op.subK 0 "a" : DAHeap.Op Int).target ≠ some 0 := by decide
+/-- in-place ulist operations keep the members unique: `u = ulist([1, 2]); u += [1, 2, 3]; u.append(1); u.insert(0, 3)` -/
+example : run [Op.new [1, 2], .iadd 0 [1, 2, 3], .append 0 1, .insert 0 0 3, .setI 0 5 9, .imul 0 2] = [[3, 1, 2]] := by decide
+/-- `Dict(a = {'x': 1}, b = 2) + {'a': {'y': 2}}` merges the two dicts under `a` (C15), a dictattr replaces the value -/
+example : addC ⟨1, [("a", .dict [("x", vi 1)]), ("b", vi 2)]⟩ [("a", Val.dict [("y", vi 2)])] =
+    .ok ⟨1, [("a", .dict [("x", vi 1), ("y", vi 2)]), ("b", vi 2)]⟩ := rfl
+example : addC ⟨2, [("a", .dict [("x", vi 1)]), ("b", vi 2)]⟩ [("a", Val.dict [("y", vi 2)])] =
+    .ok ⟨2, [("a", .dict [("y", vi 2)]), ("b", vi 2)]⟩ := rfl
+/-- K1: the key `keys` of a dictattr: `d['keys']` is 1, `d.keys` is the bound method -/
+example : DAHeap.step [⟨2, [("keys", vi 1)]⟩] (.getItem 0 "keys") = .ok ([⟨2, [("keys", vi 1)]⟩], .val (vi 1)) ∧
+    DAHeap.step [⟨2, [("keys", vi 1)]⟩] (.getAttr 0 "keys") = .ok ([⟨2, [("keys", vi 1)]⟩], .method) :=
+  ⟨rfl, da_attr_shadowed _ 0 "keys" _ rfl (by decide)⟩
 
 end Pyg.Props.C16
